@@ -4,7 +4,7 @@ PATCH=$1; shift
 cd /repo || exit 2
 if ! git diff --quiet; then echo "/repo is dirty; refusing" >&2; exit 2; fi
 git apply "$PATCH" || { echo "patch does not apply" >&2; exit 2; }
-trap 'git -C /repo checkout -- . ' EXIT
+trap 'git -C /repo checkout -- . ; (cd /verif/sim && go build -o /verif/bin/vcheck ./cmd/vcheck)' EXIT  # leave no checker binary behind that was built with the change
 export GOFLAGS=-mod=mod GOPROXY=off GOSUMDB=off GOTOOLCHAIN=local
 (cd /verif/sim && go build -o /verif/bin/vcheck ./cmd/vcheck) || { echo "BUILD FAILED"; exit 2; }
 OUT=$(/verif/bin/vcheck -prop ALL -verif /tmp 2>&1); rc=$?
